@@ -78,6 +78,8 @@ var hostileResponses = []string{
 	"HTTP/1.1 099 Low\r\nContent-Length: 3\r\n\r\nabc",
 	"HTTP/1.1 000 Zero\r\nContent-Length: 0\r\n\r\n",
 	"HTTP/1.1 101 Switching Protocols\r\nUpgrade: x\r\nConnection: Upgrade\r\n\r\n",
+	"HTTP/1.1 101 Switching Protocols\r\n\r\nxyz-bytes-of-a-protocol-nobody-asked-for",
+	"HTTP/1.1 101 Switching Protocols\r\nContent-Length: 3\r\n\r\nabc",
 	"HTTP/1.1 100 Continue\r\n\r\nHTTP/1.1 200 OK\r\nContent-Length: 3\r\n\r\nabc",
 	"HTTP/1.1 1000 Big\r\nContent-Length: 3\r\n\r\nabc",
 	"HTTP/1.1 -1 Neg\r\nContent-Length: 3\r\n\r\nabc",
@@ -109,6 +111,9 @@ func genRawPlan(r *rand.Rand) *ProxyPlan {
 			p.Res[0].Extra[0][0] = "X-Sim-Raw-NoRange"
 			p.Res[0].RangeMode = "416"
 			p.Retry416 = true
+		} else if r.IntN(3) == 0 {
+			// a storable answer to plain requests, hostile bytes for Range requests only
+			p.Res[0].Extra[0][0] = "X-Sim-Raw-Range"
 		}
 	}
 	var reqs []PReq
